@@ -190,3 +190,69 @@ Proof.
     unfold find_ent in F. apply find_some in F. destruct F as [Hin _].
     rewrite forallb_forall in Hents. specialize (Hents e Hin). btrue. rewrite H in Hs. simpl in Hs. discriminate.
 Qed.
+
+(* ------------------------------------------------------------------------------------------ *)
+(* Part 2: from the per-step facts to convergence of every execution                             *)
+
+Definition step_inv_P : Prop := forall s l s', inv_b s = true -> step s l = Some s' -> inv_b s' = true.
+Definition step_mu_P : Prop := forall s l s', inv_b s = true -> step s l = Some s' ->
+  (noop_b s l = false -> mu s' < mu s) /\ (noop_b s l = true -> mu s' <= mu s).
+(* a real step is enabled, at the latest after one no-op (a silent reply still on the wire is consumed first) *)
+Definition progress_P : Prop := forall s, inv_b s = true -> converged_b s = false ->
+  exists l s', step s l = Some s' /\
+    (noop_b s l = false \/ (exists l2 s2, step s' l2 = Some s2 /\ noop_b s' l2 = false)).
+
+Section Generic.
+  Hypothesis step_inv : step_inv_P.
+  Hypothesis step_mu : step_mu_P.
+  Hypothesis progress : progress_P.
+
+  Lemma run_bound : forall ls s s', inv_b s = true -> run s ls = Some s' ->
+    inv_b s' = true /\ mu s' + count_real s ls <= mu s.
+  Proof.
+    induction ls as [|l r IH]; intros s s' Hi Hr; simpl in *.
+    - inversion Hr; subst. split; [assumption | lia].
+    - destruct (step s l) as [s1|] eqn:E; [|discriminate].
+      pose proof (step_inv s l s1 Hi E) as Hi1. destruct (step_mu s l s1 Hi E) as [A B].
+      destruct (IH s1 s' Hi1 Hr) as [C D]. split; [exact C|].
+      destruct (noop_b s l) eqn:N.
+      + specialize (B eq_refl). lia.
+      + specialize (A eq_refl). lia.
+  Qed.
+
+  Lemma mu_zero_converged : forall s, inv_b s = true -> mu s = 0 -> converged_b s = true.
+  Proof.
+    intros s Hi Hm. destruct (converged_b s) eqn:C; [reflexivity|]. exfalso.
+    destruct (progress s Hi C) as (l & s1 & E & [N | (l2 & s2 & E2 & N2)]).
+    - destruct (step_mu s l s1 Hi E) as [A _]. specialize (A N). lia.
+    - pose proof (step_inv s l s1 Hi E) as Hi1.
+      destruct (step_mu s l s1 Hi E) as [A B]. destruct (step_mu s1 l2 s2 Hi1 E2) as [A2 _]. specialize (A2 N2).
+      destruct (noop_b s l); [specialize (B eq_refl) | specialize (A eq_refl)]; lia.
+  Qed.
+
+  (* every execution contains at most [mu s] real steps, and one that contains that many ends converged *)
+  Theorem quiet_converges_generic : forall s ls s', inv_b s = true -> run s ls = Some s' ->
+    count_real s ls <= mu s /\ (mu s <= count_real s ls -> converged_b s' = true).
+  Proof.
+    intros s ls s' Hi Hr. destruct (run_bound ls s s' Hi Hr) as [Hi' Hb]. split; [lia|].
+    intros Hge. apply mu_zero_converged; [exact Hi' | lia].
+  Qed.
+End Generic.
+
+(* what "converged" says about every live member *)
+Lemma converged_members : forall s, inv_b s = true -> converged_b s = true ->
+  forall m, In m (s_ms s) -> m_live m = true ->
+    m_gen m = c_gen (s_c s) /\ m_hb m = true /\ m_rejoin m = false /\ m_ph m = PIdle
+    /\ In (m_id m) (ids (c_ents (s_c s))) /\ c_st (s_c s) = CStable.
+Proof.
+  intros s Hi H m Hin L. unfold converged_b in H.
+  apply andb_true_iff in H. destruct H as [H _]. apply andb_true_iff in H. destruct H as [Hst Hset].
+  rewrite forallb_forall in Hset. specialize (Hset m Hin).
+  destruct (settled_live _ m Hset L) as (Hp & Hr & Hhb & _ & _ & _ & Hmem & Hg & _).
+  apply Nat.eqb_eq in Hg. pose proof Hmem as Hmem'. apply memb_In in Hmem. repeat split; try assumption.
+  apply orb_true_iff in Hst. destruct Hst as [E|E]; destruct (c_st (s_c s)) eqn:S; simpl in E; try discriminate; try reflexivity.
+  exfalso. unfold inv_b in Hi. apply andb_true_iff in Hi. destruct Hi as [Hi _]. apply andb_true_iff in Hi. destruct Hi as [Hi _].
+  apply andb_true_iff in Hi. destruct Hi as [Hwc _]. unfold wf_c in Hwc. rewrite S in Hwc. simpl in Hwc.
+  destruct (c_ents (s_c s)) eqn:Ee; [inversion Hmem|]. simpl in Hwc.
+  repeat (apply andb_true_iff in Hwc; destruct Hwc as [Hwc ?]). discriminate.
+Qed.
